@@ -500,6 +500,7 @@ var vReaddTexts = []string{"alpha", "beta", "gamma alpha"}
 var vReaddMeta = []map[string]interface{}{{"s": "x", "n": 1}, {"s": "y", "n": 2}, {"s": "z", "b": true}}
 
 func (s *vReaddSys) Reset() {
+	vFixLevels()
 	s.live = map[uint32]int{}
 	s.readd = map[uint32]bool{}
 	s.rem = map[uint32]bool{}
